@@ -110,6 +110,7 @@ func newScene(seed int64, idx int, nsrc int, rng *rand.Rand) *scene {
 		codec = "link" // merges then run one pre-sign (seal) per candidate on concurrent goroutines
 	}
 	w := hx.NewWorld(seed, 4, fmt.Sprintf("c13-%d-%d", seed, idx), "hash", codec)
+	w.Store.PinDelay = 2 * time.Millisecond
 	s := &scene{w: w, universe: model.Set{}, seen: map[int]map[string]bool{}, lastLen: map[int]int{}}
 	if idx%4 == 1 {
 		lo := w.LogOpts(w.LogID)
@@ -293,7 +294,8 @@ func (s *scene) do(run *evid.Run, g int, kind string, rng *rand.Rand, exact bool
 	case "append":
 		n := atomic.AddInt64(&s.nApp, 1)
 		r.Arg = fmt.Sprintf("p-%d-%d", g, n)
-		e, err := L.Append(s.w.Ctx, []byte(r.Arg), &iface.AppendOptions{PointerCount: []int{1, 1, 4, 16}[rng.Intn(4)]})
+		// (a quarter of the appends are PINNED; the harness pin service takes 2 ms per request)
+		e, err := L.Append(s.w.Ctx, []byte(r.Arg), &iface.AppendOptions{PointerCount: []int{1, 1, 4, 16}[rng.Intn(4)], Pin: rng.Intn(4) == 0})
 		r.Ret = s.tick()
 		if err != nil {
 			r.Err, r.failed = err.Error(), true
